@@ -10,6 +10,10 @@ import (
 )
 
 type Check struct {
+	// GC is the GC percent the explorer runs with (0 = 400). Checks that hold large pointer-dense
+	// tables (bus segment tables) do better with a small, reused heap; allocation-heavy checks on
+	// small objects do better with rare collections.
+	GC    int
 	Level string
 	Run   func(r *report.Run)
 	// Replay re-executes one recorded case and returns a description of what was observed.
